@@ -59,3 +59,45 @@ def h_unknown(c):
     c.ensure("no_raise", out.exc is None, kind="raises")
     if out.exc is None:
         c.ensure("returns_none", out.value is None)
+
+
+QSESS = "tlexport.quic.quic_session.QuicSession"
+_AEAD = "cryptography.hazmat.primitives.ciphers.aead."
+
+
+@harness("C14", "cipher_suite.quic_selection", functions=[QSESS + ".set_tls_decryptors"])
+def h_quic_selection(c):
+    """the QUIC path has its own code-point switch: for ANY 2-byte id it either reports the suite as unsupported
+    (can_decrypt False, nothing selected) or selects AEAD class, key length and hash that the IANA name of that
+    code point denotes - with the AEAD's full 16-byte tag, which excludes CCM_8 (RFC 9001 5.3)."""
+    import json
+    import os
+    from contracts.cipher_suites_native import params_of_name
+    oracle = json.load(open(os.path.join(HERE, "specs", "iana_tls_cipher_suites.json")))["suites"]
+    sid = c.bytes("ciphersuite", length=2)
+    s = c.obj(QSESS, keylog=[], hash_fun=None, cipher=None, key_length=None, can_decrypt=True, keys={}, decryptors={},
+              quic_version=c.enum("tlexport.quic.quic_decode.QuicVersion", "V1"), early_traffic_keys=False)
+    c.summary_override("tlexport.quic.quic_key_generation.dev_quic_keys", lambda ctx, *a, **k: {})
+    out = c.method(s, "set_tls_decryptors", c.bytes("client_random", length=32), sid)
+    c.ensure("no_raise", out.exc is None, kind="raises")
+    sel = c.get(s, "cipher")
+    if sel is None:
+        c.ensure("rejected.flagged", c.get(s, "can_decrypt") is False)
+        c.ensure("rejected.nothing_selected", c.get(s, "hash_fun") is None and c.get(s, "key_length") is None)
+        c.cover("rejected")
+        return
+    code = c.concrete(sid[0]) * 256 + c.concrete(sid[1])
+    name = oracle.get("%04X" % code)
+    want = params_of_name(name) if name else None
+    c.ensure("accepted.registered_and_supported[%04x]" % code, want is not None)
+    if want is None:
+        return
+    cls = {"GCM": "AESGCM", "CCM": "AESCCM", "POLY1305": "ChaCha20Poly1305"}[want["mode"]]
+    c.ensure("accepted.aead_class[%04x]" % code, c.is_external(sel, _AEAD + cls))
+    c.ensure("accepted.key_length[%04x]" % code, c.get(s, "key_length") == want["key_len"])
+    c.ensure("accepted.hash[%04x]" % code, c.is_external(c.get(s, "hash_fun"), "cryptography.hazmat.primitives.hashes." + want["hash"]))
+    c.ensure("accepted.full_tag[%04x]" % code, want["tag"] == 16)      # QuicDecryptor builds the AEAD with its default 16-byte tag
+    c.cover("accepted")
+
+
+h_quic_selection.must_cover = ["accepted", "rejected"]
